@@ -116,8 +116,24 @@ func restoreOverlay(p *Program) (map[string][]byte, []string) {
 			}
 			b.WriteString(")\n\n")
 		}
+		// names the analysed tree has changed consistently (rename.go) are changed in the restored source too
+		var repl []string
+		for old, f := range p.fieldByOldKey {
+			if strings.HasPrefix(old, path+".") {
+				repl = append(repl, old[strings.LastIndex(old, ".")+1:], f.Name())
+			}
+		}
+		for old, fn := range p.fnByOldKey {
+			if strings.HasPrefix(old, path+".") {
+				repl = append(repl, old[strings.LastIndex(old, ".")+1:], fn.Name())
+			}
+		}
 		for _, h := range hs {
-			b.WriteString(h.src + "\n\n")
+			src := h.src
+			for i := 0; i+1 < len(repl); i += 2 {
+				src = replaceWord(src, repl[i], repl[i+1])
+			}
+			b.WriteString(src + "\n\n")
 		}
 		out[filepath.Join(filepath.Dir(pk.GoFiles[0]), "zz_gnetlint_restored.go")] = []byte(b.String())
 	}
@@ -435,15 +451,25 @@ func (f *folder) foldExprs(body ast.Node, pat ast.Expr) int {
 	n := 0
 	exprType := reflect.TypeOf((*ast.Expr)(nil)).Elem()
 	var visit func(x ast.Node)
+	// the helper's result may have been converted (`return uint32(bits.Len32(n-1))`); written out at a call site
+	// the conversion is often dropped because the receiving variable has another integer type
+	pats := []ast.Expr{pat}
+	if conv, ok := ast.Unparen(pat).(*ast.CallExpr); ok && len(conv.Args) == 1 {
+		if tv, ok := f.info.Types[conv.Fun]; ok && tv.IsType() {
+			pats = append(pats, conv.Args[0])
+		}
+	}
 	tryExpr := func(e ast.Expr) ast.Expr {
 		if e == nil {
 			return nil
 		}
-		b := &binding{par: map[types.Object]ast.Expr{}, loc: map[types.Object]types.Object{}}
-		if f.match(pat, e, b) {
-			if c := f.call(b, e.Pos()); c != nil {
-				n++
-				return c
+		for _, pt := range pats {
+			b := &binding{par: map[types.Object]ast.Expr{}, loc: map[types.Object]types.Object{}}
+			if f.match(pt, e, b) {
+				if c := f.call(b, e.Pos()); c != nil {
+					n++
+					return c
+				}
 			}
 		}
 		return nil
@@ -494,4 +520,22 @@ func (f *folder) foldExprs(body ast.Node, pat ast.Expr) int {
 	}
 	visit(body)
 	return n
+}
+
+// replaceWord replaces whole-identifier occurrences of old in src.
+func replaceWord(src, old, new string) string {
+	isId := func(c byte) bool {
+		return c == '_' || (c >= '0' && c <= '9') || (c >= 'a' && c <= 'z') || (c >= 'A' && c <= 'Z')
+	}
+	var b strings.Builder
+	for i := 0; i < len(src); {
+		if strings.HasPrefix(src[i:], old) && (i == 0 || !isId(src[i-1])) && (i+len(old) == len(src) || !isId(src[i+len(old)])) {
+			b.WriteString(new)
+			i += len(old)
+			continue
+		}
+		b.WriteByte(src[i])
+		i++
+	}
+	return b.String()
 }
